@@ -156,6 +156,15 @@ func (g *gramGen) rule(i int, depth int) *Sexp {
 		case r < 45 && g.upwardRef < 0: // hidden left recursion: x? N y
 			xs := []*Sexp{A("of"), noOpts, LA("opt", runeT(g.ch())), g.ref(), runeT(g.ch())}
 			alts = append(alts, LA("seq", xs...))
+		case r < 40 && g.upwardRef >= 0:
+			// two alternatives sharing a prefix: the shared (memoized) parser is asked twice at one position
+			pre := g.maybeMemo(g.term(depth - 1))
+			if pre.Head() != "memo" && g.subMemo > 0 {
+				k := g.nextMemo
+				g.nextMemo++
+				pre = LA("memo", N(k), pre)
+			}
+			alts = append(alts, LA("seq", A("of"), noOpts, pre, runeT(g.ch())), LA("seq", A("of"), noOpts, pre.Clone(), runeT(g.ch())))
 		case r < 60:
 			alts = append(alts, runeT(g.ch()))
 		default:
@@ -517,4 +526,57 @@ func parseCaseSexp(g genGrammar, input []byte, extra ...*Sexp) *Sexp {
 	c := L(LA("env", g.env...), LA("root", g.root), LA("files", L(HS("f"), H(input))), LA("target", N(0)))
 	c.List = append(c.List, extra...)
 	return c
+}
+
+// genTemplate: the template family of small monotone grammars: 2-3 memoized rules, each an Any of 2-3
+// alternatives drawn from the shapes  t | N t | t N | t? N t | N N | N | eps  — every combination of
+// direct, indirect and hidden left recursion appears within a few thousand cases, and the reference
+// derivation table is exact for all of them.
+func genTemplate(rng *rand.Rand) (genGrammar, []byte) {
+	alphabet := []byte("abc")[:2+rng.Intn(2)]
+	nRules := 2 + rng.Intn(2)
+	t := func() *Sexp { return runeT(alphabet[rng.Intn(len(alphabet))]) }
+	n := func() *Sexp { return LA("ref", N(rng.Intn(nRules))) }
+	seq := func(xs ...*Sexp) *Sexp { return LA("seq", append([]*Sexp{A("of"), noOpts}, xs...)...) }
+	for try := 0; try < 100; try++ {
+		env := make([]*Sexp, nRules)
+		for i := range env {
+			k := 2 + rng.Intn(2)
+			alts := make([]*Sexp, k)
+			for j := range alts {
+				switch rng.Intn(8) {
+				case 0:
+					alts[j] = t()
+				case 1, 2:
+					alts[j] = seq(n(), t())
+				case 3:
+					alts[j] = seq(t(), n())
+				case 4, 5:
+					alts[j] = seq(LA("opt", t()), n(), t())
+				case 6:
+					alts[j] = n()
+				default:
+					if rng.Intn(2) == 0 {
+						alts[j] = seq(n(), n())
+					} else {
+						alts[j] = LA("empty")
+					}
+				}
+			}
+			env[i] = LA("memo", N(i), LA("any", alts...))
+		}
+		root := LA("ref", N(0))
+		if rng.Intn(2) == 0 {
+			root = LA("sentence", root)
+		}
+		if wellFormed(env, root, false) {
+			ln := rng.Intn(6)
+			in := make([]byte, ln)
+			for i := range in {
+				in[i] = alphabet[rng.Intn(len(alphabet))]
+			}
+			return genGrammar{env, root}, in
+		}
+	}
+	return genGrammar{[]*Sexp{LA("memo", N(0), runeT('a'))}, LA("ref", N(0))}, []byte("a")
 }
